@@ -2,6 +2,7 @@ import Proofs.C18Dtype
 import Proofs.C18Ccn
 import Proofs.C18Laws2
 import Proofs.C18Pooled
+import Proofs.C18Bincount1
 import Proofs.C18Weighted
 /-!
 C18 — joint counts are exact and mutual information obeys its algebraic laws.
@@ -84,6 +85,18 @@ theorem jc_relabel (a b : Arr) (nA nB : Int) (πa πb : Nat → Int → Int) (r 
       ∀ x y i j, x < a.F → y < b.F → 0 ≤ i → i < nA → 0 ≤ j → j < nB →
         p.cnt x y (πa x i) (πb y j) = r.cnt x y i j :=
   jc_relabel_core a b nA nB πa πb r ha hb h
+
+/-- the 1-D kernel `libinfo.bincount2d`: `H[i, j]` is the exact number of frames with `a[t] = i`
+and `b[t] = j` -/
+theorem bincount1_exact (a b : Arr) (nA nB : Int) (h : Tab2) (hk : bincount2d a b nA nB = .ok h) :
+    h.nA = nA ∧ h.nB = nB ∧ ∀ i j, h.cnt i j = frameCount a b 0 0 i j :=
+  bincount2d_exact_core a b nA nB h hk
+
+/-- … and its guards (equal lengths, ids in range) keep every write inside the table -/
+theorem bincount1_guard_sound (a b : Arr) (nA nB : Int) (h : Tab2) (hFa : 0 < a.F) (hFb : 0 < b.F)
+    (hk : bincount2d a b nA nB = .ok h) :
+    a.T = b.T ∧ ∀ w ∈ writes1 a b, 0 ≤ w.2.1 ∧ w.2.1 < nA ∧ 0 ≤ w.2.2 ∧ w.2.2 < nB :=
+  bincount2d_guard_sound_core a b nA nB h hFa hFb hk
 
 /-! ### mutual information -/
 
@@ -228,6 +241,14 @@ example : (matrixBincount2d exA exB 2 2).map JC.toLists = .error .assertion := b
 example : (matrixBincount2d exA (exB.relabel fun _ v => v - 1) 2 3).map JC.toLists = .error .assertion := by decide
 example : (matrixBincount2d exA { exB with T := 2 } 2 3).map JC.toLists = .error .assertion := by decide
 example : (matrixBincount2d { exA with T := 0 } { exB with T := 0 } 2 3).map JC.toLists = .error .valueError := by decide
+
+-- bincount1_exact / bincount1_guard_sound: first column of `exA` against `exB`; the error branches
+example : (bincount2d exA exB 2 3).map Tab2.toLists = .ok [[1, 0, 0], [0, 1, 1]] := by decide
+example : (bincount2d exA exB 2 2).map Tab2.toLists = .error .assertion := by decide
+example : (bincount2d exA (exB.relabel fun _ v => v - 1) 2 3).map Tab2.toLists = .error .assertion := by decide
+example : (bincount2d exA { exB with T := 2 } 2 3).map Tab2.toLists = .error .assertion := by decide
+example : (bincount2d { exA with T := 0 } { exB with T := 0 } 2 3).map Tab2.toLists = .ok [[0, 0, 0], [0, 0, 0]] := by
+  decide
 
 -- jc_exact_all_dtypes: int8 against uint16, both valid
 example : (⟨⟨8, true⟩, exA⟩ : TArr).valid := by
